@@ -409,6 +409,10 @@ def execute(item, acc=None, only=None):
             rot = {ST[i]: col[ST[(i + 1) % 3]] for i in range(3)}
             combos.append((T - 1, rot))
             combos.append((0, rot))
+            # a schedule creeping across a boundary: neighbouring periods that differ by three millionths (far less than
+            # what array comparisons "up to rounding" tolerate, several absolute tolerances of a 30 A limit)
+            combos.append((0, {st: v * (1 + 3e-6) for st, v in col.items()}))
+            combos.append((T - 1, {st: v * (1 - 3e-6) for st, v in col.items()}))
         for pos, filler in combos:
             cols = embed(col, T, pos, filler)
             if only is not None and cols != only:
